@@ -24,7 +24,11 @@ Import ListNotations.
 Inductive rpc := RIdle | RWait (armed : bool) | RRet (c : cls).
 Inductive wpc := WIdle | WSpace (armed : bool) | WOLock (armed : bool) | WMove | WRet (c : cls).
 Inductive cpc := CIdle | CGrace (n : nat) | COLock | COutput | CFinish | CRet.
-Inductive lpc := LRun | LRecvSpace | LConnWrite | LExited.
+(* LErr held c (output loop only): conn.Write failed; the loop closed outputErr and is now inside its own call of
+   closeWithError(err), whose progress is c.  held = the loop still holds oLock during that call.  The code releases
+   the lock first ("s.oLock.Unlock() // s.oLock can be acquired by s.closeWithError()"): held = false.  held = true is
+   the variant that keeps the lock (defer Unlock), kept in the model to show what the early Unlock is for. *)
+Inductive lpc := LRun | LRecvSpace | LConnWrite | LExited | LErr (held : bool) (c : cpc).
 Inductive epc := ERun | ERead | EDeliver | EExited.
 Inductive upc := UIdle | UCloseSession | UWg | URet.
 
@@ -48,7 +52,10 @@ Record state := mkState {
   rdSet : bool;            (* readDeadline <> 0 *)
   wdSet : bool;            (* writeDeadline <> 0 *)
   isClient : bool;
-  pR : rpc; pW : wpc; pC1 : cpc; pC2 : cpc; pI : lpc; pO : lpc; pE : epc; pU : upc
+  pR : rpc; pW : wpc; pC1 : cpc; pC2 : cpc; pI : lpc; pO : lpc; pE : epc; pU : upc;
+  netBroken : bool;        (* the connection is broken (TCP reset, closed by the peer): network I/O returns an error *)
+  keepLock : bool          (* model variant, never changed by a step: false = the code (lock released before the
+                              output loop calls closeWithError), true = lock kept *)
 }.
 
 Inductive label :=
@@ -60,55 +67,55 @@ Inductive label :=
 (* environment *)
 | EData (b : bool) | ERecvFull (b : bool) | ERecvChanFull (b : bool) | ESendFull (b : bool) | ESendMoved (b : bool)
 | ERFire | EWFire | ENetStall (b : bool) | EInputFail | EOutputFail | ESegment (* the event loop got a segment *)
-| EReadTimeout.
+| EReadTimeout | ENetBreak.
 
 Definition grace_iters : nat := Z.to_nat C15_closeWaitIterations.
 
 Definition olock_free (s : state) : bool :=
-  negb (match pO s with LConnWrite => true | _ => false end)
+  negb (match pO s with LConnWrite => true | LErr true _ => true | LErr false COutput => true | _ => false end)
   && negb (match pC1 s with COutput => true | _ => false end)
   && negb (match pC2 s with COutput => true | _ => false end).
 
-Definition net_ok (s : state) : bool := negb (netStalled s) || connDL s.
+Definition net_ok (s : state) : bool := negb (netStalled s) || connDL s || netBroken s.
 
 (* generic record updates *)
 Definition setR (s : state) (p : rpc) : state :=
   mkState (closeRequested s) (closedChan s) (nclosed s) (attached s) (inputErr s) (outputErr s) (udone s) (connDL s) (netStalled s)
           (recvNonEmpty s) (recvFull s) (recvChanFull s) (sendFull s) (sendMoved s) (rFired s) (wFired s) (rdSet s) (wdSet s) (isClient s)
-          p (pW s) (pC1 s) (pC2 s) (pI s) (pO s) (pE s) (pU s).
+          p (pW s) (pC1 s) (pC2 s) (pI s) (pO s) (pE s) (pU s) (netBroken s) (keepLock s).
 Definition setW (s : state) (p : wpc) : state :=
   mkState (closeRequested s) (closedChan s) (nclosed s) (attached s) (inputErr s) (outputErr s) (udone s) (connDL s) (netStalled s)
           (recvNonEmpty s) (recvFull s) (recvChanFull s) (sendFull s) (sendMoved s) (rFired s) (wFired s) (rdSet s) (wdSet s) (isClient s)
-          (pR s) p (pC1 s) (pC2 s) (pI s) (pO s) (pE s) (pU s).
+          (pR s) p (pC1 s) (pC2 s) (pI s) (pO s) (pE s) (pU s) (netBroken s) (keepLock s).
 Definition setC (one : bool) (s : state) (p : cpc) : state :=
   mkState (closeRequested s) (closedChan s) (nclosed s) (attached s) (inputErr s) (outputErr s) (udone s) (connDL s) (netStalled s)
           (recvNonEmpty s) (recvFull s) (recvChanFull s) (sendFull s) (sendMoved s) (rFired s) (wFired s) (rdSet s) (wdSet s) (isClient s)
-          (pR s) (pW s) (if one then p else pC1 s) (if one then pC2 s else p) (pI s) (pO s) (pE s) (pU s).
+          (pR s) (pW s) (if one then p else pC1 s) (if one then pC2 s else p) (pI s) (pO s) (pE s) (pU s) (netBroken s) (keepLock s).
 Definition setI (s : state) (p : lpc) : state :=
   mkState (closeRequested s) (closedChan s) (nclosed s) (attached s) (inputErr s) (outputErr s) (udone s) (connDL s) (netStalled s)
           (recvNonEmpty s) (recvFull s) (recvChanFull s) (sendFull s) (sendMoved s) (rFired s) (wFired s) (rdSet s) (wdSet s) (isClient s)
-          (pR s) (pW s) (pC1 s) (pC2 s) p (pO s) (pE s) (pU s).
+          (pR s) (pW s) (pC1 s) (pC2 s) p (pO s) (pE s) (pU s) (netBroken s) (keepLock s).
 Definition setO (s : state) (p : lpc) : state :=
   mkState (closeRequested s) (closedChan s) (nclosed s) (attached s) (inputErr s) (outputErr s) (udone s) (connDL s) (netStalled s)
           (recvNonEmpty s) (recvFull s) (recvChanFull s) (sendFull s) (sendMoved s) (rFired s) (wFired s) (rdSet s) (wdSet s) (isClient s)
-          (pR s) (pW s) (pC1 s) (pC2 s) (pI s) p (pE s) (pU s).
+          (pR s) (pW s) (pC1 s) (pC2 s) (pI s) p (pE s) (pU s) (netBroken s) (keepLock s).
 Definition setE (s : state) (p : epc) : state :=
   mkState (closeRequested s) (closedChan s) (nclosed s) (attached s) (inputErr s) (outputErr s) (udone s) (connDL s) (netStalled s)
           (recvNonEmpty s) (recvFull s) (recvChanFull s) (sendFull s) (sendMoved s) (rFired s) (wFired s) (rdSet s) (wdSet s) (isClient s)
-          (pR s) (pW s) (pC1 s) (pC2 s) (pI s) (pO s) p (pU s).
+          (pR s) (pW s) (pC1 s) (pC2 s) (pI s) (pO s) p (pU s) (netBroken s) (keepLock s).
 Definition setU (s : state) (p : upc) : state :=
   mkState (closeRequested s) (closedChan s) (nclosed s) (attached s) (inputErr s) (outputErr s) (udone s) (connDL s) (netStalled s)
           (recvNonEmpty s) (recvFull s) (recvChanFull s) (sendFull s) (sendMoved s) (rFired s) (wFired s) (rdSet s) (wdSet s) (isClient s)
-          (pR s) (pW s) (pC1 s) (pC2 s) (pI s) (pO s) (pE s) p.
+          (pR s) (pW s) (pC1 s) (pC2 s) (pI s) (pO s) (pE s) p (netBroken s) (keepLock s).
 (* shared flags *)
 Definition setFlags (s : state) (creq closed : bool) (ncl : nat) (ierr oerr ud cdl : bool) : state :=
   mkState creq closed ncl (attached s) ierr oerr ud cdl (netStalled s)
           (recvNonEmpty s) (recvFull s) (recvChanFull s) (sendFull s) (sendMoved s) (rFired s) (wFired s) (rdSet s) (wdSet s) (isClient s)
-          (pR s) (pW s) (pC1 s) (pC2 s) (pI s) (pO s) (pE s) (pU s).
+          (pR s) (pW s) (pC1 s) (pC2 s) (pI s) (pO s) (pE s) (pU s) (netBroken s) (keepLock s).
 Definition setEnv (s : state) (stalled rne rfull rcfull sfull smoved rf wf rds wds : bool) : state :=
   mkState (closeRequested s) (closedChan s) (nclosed s) (attached s) (inputErr s) (outputErr s) (udone s) (connDL s) stalled
           rne rfull rcfull sfull smoved rf wf rds wds (isClient s)
-          (pR s) (pW s) (pC1 s) (pC2 s) (pI s) (pO s) (pE s) (pU s).
+          (pR s) (pW s) (pC1 s) (pC2 s) (pI s) (pO s) (pE s) (pU s) (netBroken s) (keepLock s).
 
 (* --- the exit table of the wait points (also used by the correspondence acceptor) ------------------------ *)
 
@@ -218,7 +225,31 @@ Definition step (l : label) (s : state) : option state :=
     match pO s with
     | LRun => if closedChan s then Some (setO s LExited)
               else if olock_free s then Some (setO s LConnWrite) else None
-    | LConnWrite => if net_ok s then Some (setO s LRun) else None
+    | LConnWrite =>
+      (* a past connection deadline or a broken connection makes conn.Write fail: the loop closes outputErr, releases
+         oLock (unless the variant keeps it) and calls closeWithError(err) *)
+      if connDL s || netBroken s then
+        Some (setO (setFlags s (closeRequested s) (closedChan s) (nclosed s) (inputErr s) true (udone s) (connDL s)) (LErr (keepLock s) CIdle))
+      else if negb (netStalled s) then Some (setO s LRun) else None
+    | LErr h c =>
+      (* closeWithError(err) with err <> nil: CAS; attached: Lock, allocate the close request, Unlock, Lock, output, Unlock;
+         DeleteAll; close(closedChan) *)
+      match c with
+      | CIdle =>
+        if closeRequested s then Some (setO s (LErr h CRet))
+        else let s1 := setFlags s true (closedChan s) (nclosed s) (inputErr s) (outputErr s) (udone s) (connDL s) in
+             Some (setO s1 (LErr h (if attached s1 then COLock else CFinish)))
+      | COLock =>
+        (* Mutex.Lock: free iff nobody holds it - the loop itself counts when it kept the lock *)
+        if negb h && olock_free s then Some (setO s (LErr h COutput)) else None
+      | COutput => if net_ok s then Some (setO s (LErr h CFinish)) else None
+      | CFinish =>
+        let s1 := setFlags s (closeRequested s) true (S (nclosed s)) (inputErr s) (outputErr s) (udone s) (connDL s) in
+        let s2 := setEnv s1 (netStalled s1) (recvNonEmpty s1) (recvFull s1) (recvChanFull s1) false true (rFired s1) (wFired s1) (rdSet s1) (wdSet s1) in
+        Some (setO s2 (LErr h CRet))
+      | CRet => Some (setO s LRun)       (* back to the select of runOutputLoop (the deferred Unlock runs here in the variant) *)
+      | CGrace _ => Some (setO s (LErr h COLock))   (* not reachable: an error close does not poll *)
+      end
     | _ => None
     end
   | ESegment => match pE s with ERead => Some (setE s EDeliver) | _ => None end
@@ -261,6 +292,9 @@ Definition step (l : label) (s : state) : option state :=
   | ERFire => Some (setEnv s (netStalled s) (recvNonEmpty s) (recvFull s) (recvChanFull s) (sendFull s) (sendMoved s) true (wFired s) (rdSet s) (wdSet s))
   | EWFire => Some (setEnv s (netStalled s) (recvNonEmpty s) (recvFull s) (recvChanFull s) (sendFull s) (sendMoved s) (rFired s) true (rdSet s) (wdSet s))
   | ENetStall b => Some (setEnv s b (recvNonEmpty s) (recvFull s) (recvChanFull s) (sendFull s) (sendMoved s) (rFired s) (wFired s) (rdSet s) (wdSet s))
+  | ENetBreak => Some (mkState (closeRequested s) (closedChan s) (nclosed s) (attached s) (inputErr s) (outputErr s) (udone s) (connDL s) (netStalled s)
+          (recvNonEmpty s) (recvFull s) (recvChanFull s) (sendFull s) (sendMoved s) (rFired s) (wFired s) (rdSet s) (wdSet s) (isClient s)
+          (pR s) (pW s) (pC1 s) (pC2 s) (pI s) (pO s) (pE s) (pU s) true (keepLock s))
   | EInputFail => Some (setFlags s (closeRequested s) (closedChan s) (nclosed s) true (outputErr s) (udone s) (connDL s))
   | EOutputFail => Some (setFlags s (closeRequested s) (closedChan s) (nclosed s) (inputErr s) true (udone s) (connDL s))
   end.
@@ -271,17 +305,21 @@ Fixpoint run (s : state) (ls : list label) : option state :=
   | l :: ls' => match step l s with Some s' => run s' ls' | None => None end
   end.
 
-Definition init (client att : bool) : state :=
+Definition init_v (keep client att : bool) : state :=
   mkState false false O att false false false false false false false false false false false false false false client
-          RIdle WIdle CIdle CIdle LRun LRun ERun UIdle.
+          RIdle WIdle CIdle CIdle LRun LRun ERun UIdle false keep.
+
+Definition init (client att : bool) : state := init_v false client att.
 
 (* --- what is left to do: measure of outstanding work once the session is closed / the underlay is closing -- *)
 
 Definition mR (p : rpc) : nat := match p with RWait _ => 1 | _ => 0 end.
 Definition mW (p : wpc) : nat := match p with WSpace _ => 3 | WOLock _ => 2 | WMove => 1 | _ => 0 end.
 Definition mC (p : cpc) : nat := match p with CGrace n => n + 4 | COLock => 3 | COutput => 2 | CFinish => 1 | _ => 0 end.
-Definition mI (p : lpc) : nat := match p with LRecvSpace => 2 | LRun => 1 | LConnWrite => 0 | LExited => 0 end.
-Definition mO (p : lpc) : nat := match p with LConnWrite => 2 | LRun => 1 | LRecvSpace => 0 | LExited => 0 end.
+Definition mI (p : lpc) : nat := match p with LRecvSpace => 2 | LRun => 1 | _ => 0 end.
+(* the output loop's own closeWithError (error close: no polling) *)
+Definition mE (c : cpc) : nat := match c with CIdle => 7 | CGrace n => n + 8 | COLock => 5 | COutput => 4 | CFinish => 3 | CRet => 2 end.
+Definition mO (p : lpc) : nat := match p with LErr _ c => mE c | LConnWrite => 8 | LRun => 1 | LRecvSpace => 0 | LExited => 0 end.
 
 (* --- correspondence acceptor: is the observed class of a call explained by the exit table? ---------------
    Times in us; -1 = never, -2 = unknown (data written by the peer while the network was failing).
